@@ -677,3 +677,24 @@ Proof.
   exists out. rewrite (sort_headers_ord_indep ord hs P). repeat split; try assumption.
   apply sort_validator_decides. split; [exact Go|]. split; intros x I; eapply Permutation_in; try exact I; [exact Po|symmetry; exact Po].
 Qed.
+
+(* ---- each envelope condition is needed ---------------------------------------------------------- *)
+Theorem sort_envelope_needed :
+  (* a "./" directory entry is its own child: the recursion does not end (finding C15-F4) *)
+  sort_headers [mkHdr "./" true 493 0 0 ""] = OutOfFuel /\
+  (* a top-level entry without children is not reached (finding C16-F5) *)
+  sort_headers [mkHdr "dev/" true 493 0 0 ""; mkHdr "usr/" true 493 0 0 ""; mkHdr "usr/bin/" true 493 0 0 ""] =
+    Ok [mkHdr "usr/" true 493 0 0 ""; mkHdr "usr/bin/" true 493 0 0 ""] /\
+  (* an entry whose parent has no header is dropped (finding C16-F5) *)
+  sort_headers [mkHdr "usr/" true 493 0 0 ""; mkHdr "usr/bin/ls" false 420 0 0 ""; mkHdr "usr/lib/" true 493 0 0 ""] =
+    Ok [mkHdr "usr/" true 493 0 0 ""; mkHdr "usr/lib/" true 493 0 0 ""] /\
+  (* a directory named twice is emitted twice, with its children under each (finding C16-F7) *)
+  sort_headers [mkHdr "s/" true 493 0 0 ""; mkHdr "s/d/" true 493 0 0 ""; mkHdr "s/d/x" false 420 0 0 ""; mkHdr "s/d/" true 493 0 0 ""] =
+    Ok [mkHdr "s/" true 493 0 0 ""; mkHdr "s/d/" true 493 0 0 ""; mkHdr "s/d/x" false 420 0 0 ""; mkHdr "s/d/" true 493 0 0 ""; mkHdr "s/d/x" false 420 0 0 ""] /\
+  (* a non-directory name ending in "/." is written as R:. and does not lead back to its path *)
+  (exists out, sort_headers [mkHdr "a/" true 493 0 0 ""; mkHdr "a/b/" true 493 0 0 ""; mkHdr "a/b/c/." false 420 0 0 ""] = Ok out /\
+     Permutation out [mkHdr "a/" true 493 0 0 ""; mkHdr "a/b/" true 493 0 0 ""; mkHdr "a/b/c/." false 420 0 0 ""] /\ governed None out = false).
+Proof.
+  split; [vm_compute; reflexivity|]. split; [vm_compute; reflexivity|]. split; [vm_compute; reflexivity|]. split; [vm_compute; reflexivity|].
+  eexists. split; [vm_compute; reflexivity|]. split; [reflexivity|vm_compute; reflexivity].
+Qed.
